@@ -328,3 +328,53 @@ func mustURL(s string) *url.URL {
 	}
 	return u
 }
+
+// randomWorld: one administrator and 3-6 other users with random privilege entries.
+func randomWorld(r interface {
+	Intn(int) int
+	Chance(int) bool
+}) *world {
+	w := &world{auth: true, secret: "s3cret", dbs: []string{"db0", "db1"}}
+	n := 4 + r.Intn(4)
+	adminAt := r.Intn(n)
+	for i := 0; i < n; i++ {
+		u := &userSpec{name: fmt.Sprintf("u%d", i), pw: fmt.Sprintf("Pw#%d", i%3)} // passwords repeat across users on purpose
+		if i == adminAt {
+			u.admin = true
+		} else {
+			if r.Chance(10) {
+				u.rw = true
+			}
+			for _, db := range []string{"db0", "db1"} {
+				if r.Chance(60) {
+					if u.privs == nil {
+						u.privs = map[string]int{}
+					}
+					u.privs[db] = r.Intn(4)
+				}
+			}
+		}
+		w.users = append(w.users, u)
+	}
+	return w
+}
+
+// worldCases: for every user of the world valid credentials over each transport and a wrong
+// password; plus no credentials.
+func worldCases(w *world) []credCase {
+	out := []credCase{{class: "none", transport: "-", c: cred{hdr: "-"}}}
+	for i, u := range w.users {
+		class := "user"
+		if u.admin {
+			class = "admin"
+		}
+		tr := []string{"basic", "url", "token"}[i%3]
+		out = append(out, credCase{class: class, transport: tr, c: pwCred(tr, u.name, u.pw), user: u.name})
+		out = append(out, credCase{class: class, transport: "bearer", c: cred{hdr: "bearer", tok: jwtSpec{parses: true, expOk: true, user: jwtUser{"n", u.name}}}, user: u.name})
+		other := w.users[(i+1)%len(w.users)]
+		if other.pw != u.pw {
+			out = append(out, credCase{class: "wrongpw", transport: tr, c: pwCred(tr, u.name, other.pw)})
+		}
+	}
+	return out
+}
